@@ -89,6 +89,8 @@ func main() {
 			p := lib.SchProto{T: func() datamodel.NodeBuilder { return tp.NewBuilder() }, R: func() datamodel.NodeBuilder { return rp.NewBuilder() }}
 			if f[1] == "val" {
 				obs = lib.SchObserveValP(p, v)
+			} else if f[1] == "bytes" {
+				obs = lib.SchBuildBytes(p.R, []byte(v.S))
 			} else if f[3] == "r" {
 				obs, _ = lib.SchBuildWith(p.R, f[4], v)
 			} else {
